@@ -303,6 +303,13 @@ func genInput(seed uint64) snapInput {
 		}
 		in.Valid = false
 	}
+	// a ring may start at any of its vertices
+	for ri := range rings {
+		if n := len(rings[ri]); n > 1 && r.Chance(0.5) {
+			k := r.Intn(n)
+			rings[ri] = append(append([][2]int64(nil), rings[ri][k:]...), rings[ri][:k]...)
+		}
+	}
 	if r.Chance(0.06) {
 		// every vertex in the centre of a pixel of the reference level: what the library itself
 		// returns (its output fed back in)
